@@ -24,7 +24,7 @@ func main() {
 	vlib.ExecConformance(c, "C04", bins, vs, rand.New(rand.NewSource(vlib.Seed()+400)), n,
 		vlib.ExecMode{Faults: true, Rogue: true, Sentinel: true, Devs: []vlib.DevStep{{Config: "GqlExecTraceDev.cfg", Key: vlib.LeafElemKey}}, Panics: true, DirFaults: true, IntFaults: true, ArgFaults: true, Mutations: true, PlansPer: 6,
 			// many concurrently failing siblings: exactly one error per failure is lost only in races
-			Corpus:     vlib.StressCorpus("C04", 32),
+			Corpus:     append(vlib.StressCorpus("C04", 32), vlib.ArgFaultCorpus("C04")...),
 			Transports: []string{"tp:post", "tp:sse", "tp:mixed"}, TransportEvery: 5})
 	// second pass: through handler.Server + POST, with values whose marshaler panics while
 	// the response is serialized ("fails only that response with a well-formed error body")
